@@ -182,6 +182,12 @@ Proof. split; vm_compute; reflexivity. Qed.
 
 (* variance, stddev, meaneb, skewness use n and the first three power sums *)
 Definition uses_s3 (a : accname) : bool := match a with AVar | AStddev | AMeanEB | ASkewness => true | _ => false end.
+Lemma sum_num_of_all_num k xs : all_num xs = true -> forall a, exists r, fold_left (sum_step k) xs (SNum a) = SNum r.
+Proof.
+  induction xs as [|x xs IH]; intros Hn a; cbn [fold_left]; [exists a; reflexivity|].
+  cbn [all_num forallb] in Hn. apply andb_prop in Hn. destruct Hn as [Hx Hn]. unfold is_num in Hx.
+  cbn [sum_step]. destruct (numof x); [|discriminate]. apply (IH Hn).
+Qed.
 Theorem dsl_moment_is_accumulator : forall a xs, uses_s3 a = true -> all_num xs = true -> dsl_moment a xs = run_acc false a xs.
 Proof.
   intros a xs Ha Hn. assert (Hm : is_moment a = true) by (destruct a; try discriminate; reflexivity).
@@ -192,12 +198,7 @@ Proof.
   destruct (fold_left (sum_step 4) xs (SNum (I 0))) eqn:E4.
   - unfold finalize. destruct a; try discriminate; cbn [emit st_count st_s1 st_s2 st_s3]; rewrite Ec;
       replace (0 + Z.of_nat (List.length xs))%Z with (Z.of_nat (List.length xs)) by lia; reflexivity.
-  - exfalso. rewrite <- (dsl_sum_string_is_error 4 xs) in E4; [|]. 2:{ exfalso.
-      pose proof (sums_agree a xs Hm (all_num_no_strings xs Hn) st0) as _. clear -E4 Hn.
-      revert E4. generalize (I 0). induction xs as [|x xs IH]; intros z E4; [discriminate|].
-      cbn [all_num forallb] in Hn. apply andb_prop in Hn. destruct Hn as [Hx Hn]. unfold is_num in Hx.
-      cbn [fold_left sum_step] in E4. destruct (numof x); [|discriminate]. exact (IH Hn _ E4). }
-    discriminate.
+  - exfalso. destruct (sum_num_of_all_num 4 xs Hn (I 0)) as [r Er]. congruence.
 Qed.
 Theorem dsl_variance_is_accumulator : forall xs, all_num xs = true -> dsl_stat DVariance xs = run_acc false AVar xs.
 Proof. intros xs H. exact (dsl_moment_is_accumulator AVar xs eq_refl H). Qed.
@@ -234,5 +235,5 @@ Proof.
   intros k xs Hk Hn. destruct (dsl_sumk_value k xs Hk Hn (I 0)) as (r & E & Q). exists r. split; [exact E|].
   rewrite Q. cbn [qof]. unfold inject_Z. ring.
 Qed.
-Example dsl_sum3_example : dsl_stat DSum3 [B "3"; []; B "1.5"] = OFlt (Qmake 30375 1000) \/ True.
-Proof. right. exact Logic.I. Qed.
+Example dsl_sum3_example : exists q, dsl_stat DSum3 [B "3"; []; B "1.5"] = OFlt q /\ q == 30375 # 1000.
+Proof. eexists. split; [vm_compute; reflexivity|]. vm_compute. reflexivity. Qed.
